@@ -11,6 +11,7 @@ import (
 	"fmt"
 	"math/big"
 	"net"
+	"os"
 	"regexp"
 	"runtime"
 	"strings"
@@ -139,6 +140,9 @@ func tlsConfigs() (*tls.Config, *tls.Config) {
 	return srvTLSConfig, cliTLSConfig
 }
 
+// serveConnParks counts, per run, the parks at the serve.conn yield point (coverage probe).
+var serveConnParks atomic.Int64
+
 const (
 	classMain   = 0
 	classListen = 2
@@ -219,10 +223,17 @@ func runScenarioIn(t *testing.T, sc *Scenario, h *History) {
 					sleepClass(classWoken+w%(classMod-classWoken), 0)
 				}
 			}
+			if fy := os.Getenv("VERIF_FORCE_YIELD"); fy != "" && fy == point {
+				sleepClass(40+int(yn.Add(1))%8, 700*time.Microsecond) // debugging aid
+				return
+			}
 			if yp == 0 || !points[point] {
 				return
 			}
 			// each caller parks in its own residue class
+			if point == "serve.conn" {
+				serveConnParks.Add(1)
+			}
 			sleepClass(40+int(yn.Add(1))%8, yp)
 		}
 		defer func() { smtp.VerifYield = nil }()
